@@ -121,7 +121,8 @@ def rule_ivt_words(ctx) -> None:
     if wu == want_alt and crc_def == ["0 if int(self.IMAGE_TYPE[0]) == 0 else crc_val_cert_offset"]:
         wu = dict(want)
     chk.decide(wu == want, "C01.ivt-words", upd.qual, "flags, total length, CRC/cert offset and load address are written little-endian into their own 4-byte windows", f"{wu}", f"{want}", A.loc(MIX, upd.node))
-    chk.decide(set(wc) == set(wu) and all(v == "bytes(4)" for v in wc.values()), "C01.ivt-words", cln.qual, "clean_ivt clears exactly the four windows update_ivt writes", f"{wc}", "", A.loc(MIX, cln.node))
+    zero4 = lambda t: A.const_bytes(ast.parse(t, mode="eval").body) == bytes(4)  # noqa: E731
+    chk.decide(set(wc) == set(wu) and all(zero4(v) for v in wc.values()), "C01.ivt-words", cln.qual, "clean_ivt clears exactly the four windows update_ivt writes", f"{wc}", "", A.loc(MIX, cln.node))
     readers = {"get_flags_from_data": "IVT_IMAGE_FLAGS_OFFSET", "get_cert_block_offset_from_data": "IVT_CRC_CERTIFICATE_OFFSET", "get_load_address_from_data": "IVT_LOAD_ADDR_OFFSET"}
     for name, const in readers.items():
         fn = ctx.own(MIX, "Mbi_MixinIvt", name)
@@ -316,23 +317,35 @@ def rule_pipeline(ctx) -> None:
             prev_var = norm(st.targets[0]) if isinstance(st, ast.Assign) else None
         chk.decide(ok, "C01.pipeline", fn.qual + " chaining", "each stage consumes the previous stage's result", "a stage does not consume its predecessor's output", "", A.loc(MBI, fn.node))
     # class selection by IVT image type
-    sel = [n for n in ast.walk(pa.node) if isinstance(n, ast.If) and norm(n.test) == "cls_info[0].IMAGE_TYPE[0] == image_type"]
-    chk.decide(bool(sel), "C01.pipeline", pa.qual + " dispatch", "class is selected by the image type read from the data", "", "", A.loc(MBI, pa.node))
+    # (the instantiated class is the first element of the mbi_classes entry whose IMAGE_TYPE[0] equals the type read from the data;
+    #  no match raises - whether written with sentinels + `is None` or with tuple unpacking + for/else)
+    ctor = A.single_def(pa.node, "mbi_cls")
+    cvar = ctor.func.id if isinstance(ctor, ast.Call) and isinstance(ctor.func, ast.Name) else None
+    sel_ok, why = False, "constructor variable not found"
+    for lp in [n for n in ast.walk(pa.node) if isinstance(n, ast.For) and norm(n.iter) == "mbi_classes.values()"]:
+        for iff in [n for n in ast.walk(lp) if isinstance(n, ast.If) and isinstance(n.test, ast.Compare) and len(n.test.ops) == 1 and isinstance(n.test.ops[0], ast.Eq)]:
+            sides = [norm(iff.test.left), norm(iff.test.comparators[0])]
+            if "image_type" not in sides:
+                continue
+            other = sides[1 - sides.index("image_type")]
+            if not other.endswith(".IMAGE_TYPE[0]"):
+                continue
+            elem = other[: -len(".IMAGE_TYPE[0]")]
+            first = norm(lp.target.elts[0]) if isinstance(lp.target, ast.Tuple) and lp.target.elts else f"{norm(lp.target)}[0]"
+            binds = elem == cvar and first == cvar or (elem == first and any(isinstance(x, ast.Assign) and norm(x) == f"{cvar} = {elem}" for x in iff.body))
+            miss = (bool(lp.orelse) and A.always_raises(lp.orelse)) or any(q.end == "raise" and q.assumes(f"{cvar} is None", True) for q in A.gpaths(pa.node))
+            sel_ok = binds and miss
+            why = f"compares {other}; binds {binds}; unmatched type raises {miss}"
+    it = A.single_def(pa.node, "image_type")
+    it_ok = it is not None and norm(it) in ("MasterBootImage.get_image_type(family, data, revision)", "cls.get_image_type(family, data, revision)")
+    chk.decide(sel_ok and it_ok, "C01.pipeline", pa.qual + " dispatch", "class is selected by the image type read from the data", f"{why}; image_type = {norm(it) if it is not None else None}", "", A.loc(MBI, pa.node))
     # length sums
     cls = ctx.cls(MBI, "MasterBootImage")
     for prop, call, filt in (("total_len", "base.mix_len(self)", None), ("app_len", "base.mix_app_len(self)", None), ("total_length_for_cert_block", "base.mix_len(self)", "base.COUNT_IN_LEGACY_CERT_BLOCK_LEN")):
         fn = ctx.own(MBI, "MasterBootImage", prop)
-        body = A.body_of(fn.node)
-        init_ok = isinstance(body[0], ast.Assign) and norm(body[0]) == "ret = 0"
-        loop = [n for n in body if isinstance(n, ast.For)]
-        ok = init_ok and bool(loop) and norm(loop[0].iter) == "self._get_mixins()" and isinstance(body[-1], ast.Return) and norm(body[-1].value) == "ret"
-        adds = [norm(n) for n in ast.walk(loop[0]) if isinstance(n, ast.AugAssign)] if loop else []
-        ok = ok and adds == [f"ret += {call}"]
-        if filt and loop:
-            ok = ok and any(isinstance(n, ast.If) and norm(n.test) == filt for n in loop[0].body)
-        elif loop:
-            ok = ok and not any(isinstance(n, ast.If) for n in loop[0].body)
-        chk.decide(ok, "C01.len-sums", fn.qual, f"sum of {call} over all mixins" + (f" with {filt}" if filt else ""), f"init {init_ok}, adds {adds}", "", A.loc(MBI, fn.node))
+        red = A.reduction(fn.node)  # loop-with-accumulator and sum(<generator>) have the same summary
+        want = {"init": "0", "elem": call.replace("base.", "_v."), "iter": "self._get_mixins()", "filt": [filt.replace("base.", "_v.")] if filt else []}
+        chk.decide(red == want, "C01.len-sums", fn.qual, f"sum of {call} over all mixins" + (f" with {filt}" if filt else ""), f"{red}", f"{want}", A.loc(MBI, fn.node))
     gm = ctx.own(MBI, "MasterBootImage", "_get_mixins")
     r = A.returns_in(gm.node)
     chk.decide(bool(r) and norm(r[-1].value) == "[x for x in cls.__bases__ if issubclass(x, mbi_mixin.Mbi_Mixin)]", "C01.len-sums", gm.qual, "all mixin bases in declaration order", norm(r[-1]) if r else "", "", A.loc(MBI, gm.node))
@@ -428,12 +441,30 @@ def rule_presence(ctx, P: str = "C01") -> None:
     chk.decide(isinstance(nm, dict) and nm.get("key_store", 1) is None, f"{P}.presence", f"{MIX}::Mbi_MixinKeyStore.NEEDED_MEMBERS", "class default for key_store is None", f"{nm}", "", A.loc(MIX, ks.node))
     # the consumers really test absence by truthiness
     enc = ctx.own(MIX, "Mbi_ExportMixinAppTrustZoneCertBlockEncrypt", "encrypt")
-    t = [norm(s.test) for s in A.body_of(enc.node) if isinstance(s, ast.If)]
-    chk.decide("not self.key_store or self.key_store.key_source == KeySourceType.OTP" in t, f"{P}.presence", enc.qual, "image key is derived when no key store (or an OTP source) is present", f"{t}", "", A.loc(MIX, enc.node))
-    # key derivation is the same expression for both directions (computed before the revert split)
-    kd = [s for s in A.body_of(enc.node) if isinstance(s, ast.If) and "self.key_store" in norm(s.test)]
-    rv = [s for s in A.body_of(enc.node) if isinstance(s, ast.If) and norm(s.test) == "revert" and any(isinstance(x, ast.Return) for x in s.body) and "aes_ctr_decrypt" in norm(s)]
-    chk.decide(bool(kd) and bool(rv) and kd[0].lineno < rv[0].lineno, f"{P}.presence", enc.qual + " twin", "the same derived key serves encryption and its revert", "", "", A.loc(MIX, enc.node))
+    table, dirs_ok = enc_table(enc.node)
+    der = {x for x in table["aes_ctr_encrypt"] if x[0] == "derived"}
+    chk.decide(bool(der) and all(x[1] == "KeyStore.derive_enc_image_key(self.hmac_key)" for x in der), f"{P}.presence", enc.qual, "image key is derived when no key store (or an OTP source) is present", f"{sorted(table['aes_ctr_encrypt'])}", "", A.loc(MIX, enc.node))
+    # key derivation is the same for both directions
+    chk.decide(dirs_ok and bool(table["aes_ctr_encrypt"]) and table["aes_ctr_encrypt"] == table["aes_ctr_decrypt"], f"{P}.presence", enc.qual + " twin", "the same derived key serves encryption and its revert",
+               f"{sorted(table['aes_ctr_encrypt'])} / {sorted(table['aes_ctr_decrypt'])}", "", A.loc(MIX, enc.node))
+
+
+def enc_table(fn_node):
+    """Decision table of Mbi_ExportMixinAppTrustZoneCertBlockEncrypt.encrypt in its inputs: per direction the set of
+    (key-store situation, key, nonce, data) - the layout of the ifs, temporaries and conditional expressions does not matter."""
+    table = {"aes_ctr_encrypt": set(), "aes_ctr_decrypt": set()}
+    dirs_ok = True
+    for q in A.spaths(fn_node):
+        if q.end != "return" or q.value is None:
+            continue
+        for nm, data_kw, want_rev in (("aes_ctr_encrypt", "plain_data", False), ("aes_ctr_decrypt", "encrypted_data", True)):
+            for c in [c for c in ast.walk(q.value) if isinstance(c, ast.Call) and A.call_name(c) == nm]:
+                kw = {k.arg: norm(k.value) for k in c.keywords}
+                derived = q.assumes("self.key_store.key_source == KeySourceType.OTP ∨ ¬self.key_store", True)
+                stored = q.assumes("self.key_store", True) and q.assumes("self.key_store.key_source == KeySourceType.OTP", False)
+                table[nm].add((("derived" if derived else "stored" if stored else "?"), kw.get("key"), kw.get("nonce"), kw.get(data_kw)))
+                dirs_ok = dirs_ok and q.assumes("revert", want_rev) and q.assumes("self.hmac_key", True) and q.assumes("self.ctr_init_vector", True)
+    return table, dirs_ok
 
 
 def rule_config_keys(ctx) -> None:
